@@ -518,6 +518,37 @@ fn fuzz_tier(ctx: &Ctx, single_input: Option<&std::path::Path>) -> Result<Option
     }
 }
 
+static HANGS_SEEN: std::sync::atomic::AtomicU32 = std::sync::atomic::AtomicU32::new(0);
+
+/// The code under test is pure and in memory and a stream has at most 256 KB: a decode that has not returned after 8 s
+/// hangs (the reader spins), it is not slow. "Decodes identically under every chunking" includes decoding at all, so a
+/// hang is a violation of the property, not an infrastructure problem. The spinning thread cannot be stopped: after the
+/// first hang the time-out is 1.5 s (shrinking only has to tell hang from no hang) and after 30 hangs nothing more is run.
+pub fn run_case_guarded(case: &StreamCase, with_file: bool) -> CaseReport {
+    use std::sync::atomic::Ordering;
+    let seen = HANGS_SEEN.load(Ordering::SeqCst);
+    if seen >= 30 {
+        return CaseReport::pass(vec!["not_run_after_30_hangs".into()], false);
+    }
+    let c = case.clone();
+    let (tx, rx) = std::sync::mpsc::channel();
+    std::thread::spawn(move || {
+        let _ = tx.send(run_case(&c, with_file));
+    });
+    let limit = if seen == 0 { std::time::Duration::from_secs(8) } else { std::time::Duration::from_millis(1500) };
+    match rx.recv_timeout(limit) {
+        Ok(r) => r,
+        Err(_) => {
+            HANGS_SEEN.fetch_add(1, Ordering::SeqCst);
+            CaseReport::violation(
+                vec!["decoder_did_not_terminate".into()],
+                true,
+                format!("decoding this stream did not terminate within {} ms (pure in-memory code, at most 256 KB): the reader hangs under this chunking", limit.as_millis()),
+            )
+        }
+    }
+}
+
 pub fn main(ctx: &Ctx) -> i32 {
     if let Some(p) = &ctx.replay {
         if p.extension().and_then(|e| e.to_str()) == Some("bin") {
@@ -554,7 +585,7 @@ pub fn main(ctx: &Ctx) -> i32 {
                 return 2;
             }
         };
-        return finish_replay(ctx, run_case(&case, true), p);
+        return finish_replay(ctx, run_case_guarded(&case, true), p);
     }
     let stats = Arc::new(Stats::default());
     let n_streams = ctx.tier.pick(20_000u32, 500_000u32);
@@ -572,7 +603,7 @@ pub fn main(ctx: &Ctx) -> i32 {
     let c2 = counter.clone();
     let fail = run_cases(ctx, &stats, case_strategy as fn() -> _, n_streams, cores(), 2000, move |case| {
         let n = c2.fetch_add(1, std::sync::atomic::Ordering::Relaxed);
-        run_case(case, n % 8 == 0)
+        run_case_guarded(case, n % 8 == 0)
     });
     if fail.is_some() {
         return finish(ctx, &stats, fin(), fail);
